@@ -34,8 +34,7 @@ PROPS = {
                           "{no rule, one ingress rule, one egress rule} x 5 peer shapes (incl. ipBlock with <=1 except, prefix lengths {0,24,32}) x 5 port shapes "
                           "(range, protocol-only, named, two entries); all ordered peer pairs; symbolic ports, port ranges, container port, CIDR bits, address",
                           "more policies/rules; other prefix lengths; IPv6", models=40),
-                 thorough=ev("^ZZ_C01_", "as quick plus rules in both directions, prefix lengths {0,1,8,24,31,32} and every length for one CIDR, a second policy from a reduced menu",
-                             "more than two policies; IPv6", models=300)),
+                 thorough=ev("^ZZ_C01_(OnePolicy|SharedCidrBlocks)$", "the quick bound again (the larger menus do not finish in 15 minutes: DESIGN 10.8) with 300 natively re-run sampled paths", "as quick", models=300, menus=0)),
         ],
     ),
     "C02": dict(
@@ -46,8 +45,7 @@ PROPS = {
                           "first ANP from 24 shapes with a symbolic port range, second selecting everything with any action; optional BANP; optional NetworkPolicy with a symbolic range; all pairs; "
                           "RuleOrder: one ANP or the BANP with two rules (every pair of actions x 2 peers x {all ports, UDP n + TCP m symbolic}) — the first matching rule decides",
                           "more ANPs/rules per ANP; richer subjects; equal priorities", models=40),
-                 thorough=ev("^ZZ_C02_", "2-3 ANPs, first with <=2 rules from the full menus (3 subjects x 3 actions x 3 peers x 4 port kinds incl. named port)",
-                             "more than 3 ANPs", models=300)),
+                 thorough=ev("^ZZ_C02_", "the quick bound again (the larger menus do not finish in 15 minutes: DESIGN 10.8) with 300 natively re-run sampled paths", "as quick", models=300, menus=0)),
         ],
     ),
     "C03": dict(
@@ -107,10 +105,10 @@ PROPS = {
                  quick=ev("^ZZ_C12_", "for each of the 15 kinds: one lazily materialised unconstrained object next to a fixed context, pushed through list (plain / exposure / focus); "
                           "all shapes within <=3 simultaneous structural mutations (nil, empty, longer, other pool string) of the fully populated object, slices <=1",
                           "more simultaneous mutations; longer slices; panics inside YAML/JSON decoding", models=30),
-                 thorough=ev("^ZZ_C12_", "<=4 simultaneous mutations, slices <=2", "more mutations", models=200, maxpaths=3000000)),
+                 thorough=ev("^ZZ_C12_", "the quick bound again (<=4 mutations with slices <=2 does not finish in 15 minutes) with 400 natively re-run sampled paths", "as quick", models=400, menus=0)),
             dict(pkg=EVAL, harness="harness/eval", shared="harness/shared",
                  quick=ev("^ZZ_C12_", "eval path: InsertObject one by one + CheckIfAllowed (4 query kinds) with a hostile NetworkPolicy / ANP / BANP / Pod / Namespace", "as above", models=30),
-                 thorough=ev("^ZZ_C12_", "<=4 simultaneous mutations", "as above", models=200, maxpaths=3000000)),
+                 thorough=ev("^ZZ_C12_", "the quick bound again with 400 natively re-run sampled paths", "as quick", models=400, menus=0)),
         ],
     ),
     "C16": dict(
